@@ -240,45 +240,87 @@ def run_scenarios(fn, scenarios, *args, threads=12):
 
 # ------------------------------------------------------------------------------------------------ C19 configuration
 
-OPT_VALUES = {"wrap_column": {1: "30", 2: "60"}, "begin_style": {1: "always_wrap"}, "use_tabs": {1: "true"}}
+OPT_VALUES = {"wrap_column": {1: "30", 2: "60", 3: "120"}, "begin_style": {1: "always_wrap", 2: "auto"}, "use_tabs": {1: "true", 2: "false"}}
+# the option the model's "other" stands for (chosen per scenario): name, a non-default value, the default written out
+OTHERS = [("format_multiline_strings", "false", "true"), ("tab_width", "4", "2"), ("continuation_indents", "1", "2"),
+          ("line_ending", "crlf", "native"), ("encoding", "iso-2022-jp", "native"), ("tab_width", "0", "2"), ("line_ending", "crlf", "lf")]
+TOP = {"wrap_column": 3, "begin_style": 2, "use_tabs": 2, "other": 2}
+# a probe every option leaves its mark on: a line to wrap, a `begin` to place, a multi-line literal that is not in place,
+# a line whose width depends on how its bytes are decoded
 PROBE = (b"procedure Foo;\nbegin\n  if SomeCondition and AnotherCondition or YetAnotherCondition then begin\n"
-         b"    CallSomething(FirstArgument, SecondArgument, ThirdArgument, FourthArgument);\n  end;\nend;\n")
+         b"    CallSomething(FirstArgument, SecondArgument, ThirdArgument, FourthArgument);\n  end;\n"
+         b"  S := \'\'\'\n  first\n    second\n  \'\'\';\n"
+         + "  Caf\u00e9 := Na\u00efve('\u00e9\u00e9\u00e9\u00e9\u00e9\u00e9\u00e9\u00e9\u00e9\u00e9\u00e9\u00e9\u00e9\u00e9\u00e9\u00e9\u00e9\u00e9\u00e9\u00e9', Argument, AnotherArgument, YetAnotherArgument, TheLastArgument1);\n".encode()
+         + b"end;\n")
+
+# ill-typed values that must be rejected, per route (the model's `bad_value`; one spelling per scenario)
+# (a later source for the same key shadows an earlier one, whatever the earlier one says: the defect kinds use keys of
+# their own - bad values and numbers out of range tab_width / line_ending / encoding, converted values
+# continuation_indents - and none of the keys the model's settings use, so that a defect is never shadowed)
+BAD_CLI = ["tab_width=wide", "tab_width=1e2", "tab_width=2.5", "tab_width=1.0", "tab_width=nan", "tab_width=inf",
+           "line_ending=CRLF", "tab_width=-1", "tab_width=0x10", "tab_width=", "tab_width=1_0",
+           "tab_width=100.0", "line_ending=1", "encoding=nope", "tab_width= 5", "tab_width=2.0", "tab_width=1e0", "line_ending=Lf"]
+BAD_TOML = ['tab_width = "wide"', "tab_width = [1]", "tab_width = -1", "line_ending = true", 'line_ending = "CRLF"',
+            "tab_width = 1979-05-27", "tab_width = {a=1}", 'encoding = "nope"', "line_ending = 1", 'tab_width = ""']
+# ill-typed values the configuration library converts instead of rejecting (the model's `coerced`; known finding F26 lists
+# exactly these spellings, route by route)
+COERCED_CLI = ["continuation_indents=true", "continuation_indents=on", "continuation_indents=yes", "continuation_indents=false"]
+COERCED_TOML = ["continuation_indents = 2.5", "continuation_indents = nan", "continuation_indents = false", "continuation_indents = true", "continuation_indents = 1e0"]
+RANGE_CLI = ["tab_width=258", "tab_width=256", "tab_width=65536", "tab_width=4294967296"]
+RANGE_TOML = ["tab_width = 258", "tab_width = 300", "tab_width = 256", "tab_width = 65537"]
 
 
-def toml_bytes(src):
+def _pick(lst, src, idx):
+    return lst[(idx + src.get("wrap_column", 0) + 2 * src.get("use_tabs", 0)) % len(lst)]
+
+
+def opt_text(o, i, idx):
+    """(key, value) of option o at value index i"""
+    if o == "other":
+        name, nd, dflt = OTHERS[idx % len(OTHERS)]
+        return name, (nd if i == 1 else dflt)
+    return o, OPT_VALUES[o][i]
+
+
+def toml_bytes(src, idx=0):
     """the bytes of a configuration file for a source (an `unreadable` one is not valid UTF-8)"""
-    t = toml_of(src).encode()
+    t = toml_of(src, idx).encode()
     if src["defect"] == "unreadable":
         return [b"# caf\xe9 style\n" + t, b"\xff\xfe" + t.decode().encode("utf-16-le")][(src.get("wrap_column", 0) + src.get("use_tabs", 0)) % 2]
     return t
 
 
-def toml_of(src):
+def toml_of(src, idx=0):
     lines = []
-    for o, vals in OPT_VALUES.items():
+    for o in ("wrap_column", "begin_style", "use_tabs", "other"):
         if src.get(o, 0):
-            v = vals[src[o]]
-            lines.append(f'{o} = "{v}"' if o == "begin_style" else f"{o} = {v}")
+            k, v = opt_text(o, src[o], idx)
+            lines.append(f'{k} = "{v}"' if k in ("begin_style", "line_ending", "encoding") else f"{k} = {v}")
     if src["defect"] == "unknown_key":
         lines.append("no_such_option = 1")
     if src["defect"] == "bad_value":
-        lines.append('tab_width = "wide"')
+        lines.append(_pick(BAD_TOML, src, idx))
+    if src["defect"] == "coerced":
+        lines.append(_pick(COERCED_TOML, src, idx))
     if src["defect"] == "out_of_range":
-        lines.append(["tab_width = 258", "continuation_indents = 300", "tab_width = 256", "continuation_indents = 65537"][len(lines) % 4 if lines else (src.get("wrap_column", 0) + src.get("use_tabs", 0)) % 4])
+        lines.append(_pick(RANGE_TOML, src, idx))
     return "\n".join(lines) + "\n"
 
 
-def override_args(src):
+def override_args(src, idx=0):
     a = []
-    for o, vals in OPT_VALUES.items():
+    for o in ("wrap_column", "begin_style", "use_tabs", "other"):
         if src.get(o, 0):
-            a += ["-C", f"{o}={vals[src[o]]}"]
+            k, v = opt_text(o, src[o], idx)
+            a += ["-C", f"{k}={v}"]
     if src["defect"] == "unknown_key":
         a += ["-C", "no_such_option=1"]
     if src["defect"] == "bad_value":
-        a += ["-C", "tab_width=wide"]
+        a += ["-C", _pick(BAD_CLI, src, idx)]
+    if src["defect"] == "coerced":
+        a += ["-C", _pick(COERCED_CLI, src, idx)]
     if src["defect"] == "out_of_range":
-        a += ["-C", "tab_width=258"]
+        a += ["-C", _pick(RANGE_CLI, src, idx)]
     return a
 
 
@@ -298,7 +340,7 @@ def run_config_scenario(idx, sc):
                 os.makedirs(os.path.join(d, "pasfmt.toml"))
             elif src["defect"] != "absent":
                 with open(os.path.join(d, "pasfmt.toml"), "wb") as fh:
-                    fh.write(toml_bytes(src))
+                    fh.write(toml_bytes(src, idx))
         cwd = dirs[-1]
         probe = os.path.join(cwd, "probe.pas")
         with open(probe, "wb") as fh:
@@ -308,32 +350,57 @@ def run_config_scenario(idx, sc):
             # (the name of an explicitly given file is of no consequence)
             p = os.path.join(root, ["custom.toml", "team-style.cfg", "pasfmt.toml.shared", ".pasfmt", "style", "Custom.TOML"][idx % 6])
             with open(p, "wb") as fh:
-                fh.write(toml_bytes(sc["argSource"]))
+                fh.write(toml_bytes(sc["argSource"], idx))
             args += ["--config-file", p]
         elif sc["cfgArg"] == "missing":
             args += ["--config-file", os.path.join(root, "does_not_exist.toml")]
         elif sc["cfgArg"] == "dir":
             args += ["--config-file", dirs[0]]
         for o in sc["overrides"]:
-            args += override_args(o)
+            args += override_args(o, idx)
         rc, out, err = run_bin(args + ["probe.pas"], cwd)
         now = open(probe, "rb").read()
-        what = f"tree={[sc['tree'][str(l)] for l in range(depth + 1)]} --config-file={sc['cfgArg']}:{sc['argSource']} -C={sc['overrides']}"
+        what = f"tree={[sc['tree'][str(l)] for l in range(depth + 1)]} --config-file={sc['cfgArg']}:{sc['argSource']} -C={sc['overrides']} argv={args}"
         if sc["error"]:
+            # the sources that are actually read: the file chosen (given, or the nearest one) and the -C options
+            files = [sc["tree"][str(l)] for l in range(depth + 1) if sc["tree"][str(l)]["defect"] not in ("absent", "is_dir")]
+            read = ([sc["argSource"]] if sc["cfgArg"] == "file" else files[-1:]) if sc["cfgArg"] in ("none", "file") else None
+            coerced, others = [], ["no file"]
+            if read is not None:
+                coerced = [l for src in read if src["defect"] == "coerced" for l in toml_of(src, idx).split("\n") if l in COERCED_TOML] + [x for x in args if x in COERCED_CLI]
+                # (F26 applies only when a converted value is the only defect the run could have stopped for)
+                others = [src["defect"] for src in read + sc["overrides"] if src["defect"] not in ("none", "coerced")]
+            site = f" [site: converted instead of rejected: {coerced[0]!r} {'on the command line' if coerced[0] in COERCED_CLI else 'in a configuration file'}]" if coerced and not others else ""
             if rc == 0:
-                problems.append({"clause": "rejects_invalid", "detail": f"exit status 0 although the configuration is invalid ({what})"})
+                problems.append({"clause": "rejects_invalid", "detail": f"exit status 0 although the configuration is invalid ({what}){site}"})
             if now != PROBE:
-                problems.append({"clause": "error_before_touch", "detail": f"the file was modified although the configuration was rejected ({what})"})
+                problems.append({"clause": "error_before_touch", "detail": f"the file was modified although the configuration was rejected ({what}){site}"})
         else:
             eff_args = []
-            for o, vals in OPT_VALUES.items():
-                if sc["eff"][o]:
-                    eff_args += ["-C", f"{o}={vals[sc['eff'][o]]}"]
+            meaning = sc.get("meaning") or sc["eff"]
+            for o in ("wrap_column", "begin_style", "use_tabs", "other"):
+                if meaning.get(o, 0):
+                    k, v = opt_text(o, meaning[o], idx)
+                    eff_args += ["-C", f"{k}={v}"]
             erc, exp = oracle(PROBE, eff_args)
-            if rc != 0:
+            if erc != 0:
+                # (the probe cannot be read under this configuration - e.g. its bytes are malformed in the configured
+                # encoding: every spelling of the configuration must then fail alike and leave the file alone)
+                if rc == 0 or now != PROBE:
+                    problems.append({"clause": "effective_configuration", "detail": f"the canonical spelling {eff_args} fails on the probe, this spelling gives exit status {rc} and {'a modified' if now != PROBE else 'an unmodified'} file ({what})"})
+            elif rc != 0:
                 problems.append({"clause": "accepts_valid", "detail": f"exit status {rc} for a valid configuration ({what}); stderr {err[-300:].decode(errors='replace')}"})
             elif now != exp:
-                problems.append({"clause": "effective_configuration", "detail": f"result differs from the one for the same effective configuration {sc['eff']} given entirely by -C ({what})"})
+                problems.append({"clause": "effective_configuration", "detail": f"result differs from the one for the same effective configuration {sc['eff']} in its canonical spelling {eff_args} in an empty tree ({what})"})
+            # every spelling of the same meaning gives the same bytes: all defaults written out, on the command line
+            if not meaning or not any(meaning.values()):
+                full = []
+                for k, v in [("wrap_column", "120"), ("begin_style", "auto"), ("format_multiline_strings", "true"), ("encoding", "native"), ("use_tabs", "false"),
+                             ("tab_width", "2"), ("continuation_indents", "2"), ("line_ending", "native")]:
+                    full += ["-C", f"{k}={v}"]
+                frc, fexp = oracle(PROBE, full)
+                if frc == 0 and rc == 0 and fexp != now:
+                    problems.append({"clause": "effective_configuration", "detail": f"the defaults written out ({full}) give another result than the defaults left out ({what})"})
         return problems, False
     finally:
         shutil.rmtree(root, ignore_errors=True)
